@@ -13,6 +13,8 @@ def gen_grid(g):
         return np.linspace(g["lo"], g["hi"], g["n"])
     if g["kind"] == "int":
         return np.arange(1, g["n"] + 1, dtype=float)
+    if g["kind"] == "fine":                       # a very fine linear grid: neighbouring samples a few 1e-6 apart (relative)
+        return np.linspace(g["lo"], g["lo"] * (1.0 + g["n"] * 3e-6), g["n"])
     if g["kind"] == "lin0":                       # an FFT grid: linear and including the 0 Hz bin (frequency >= 0 is legal)
         return np.linspace(0.0, g["hi"], g["n"])
     raise ValueError(g["kind"])
